@@ -39,6 +39,7 @@ def run(ctx):
     ctx.do(rule_raw_deref)
     ctx.do(rule_optional_subscript)
     ctx.do(rule_commit_last)
+    ctx.do(rule_failed_write_leaves_no_file)
     ctx.do(rule_registry_class_attr)
     ctx.do(rule_input_parsers_guarded)
     ctx.do(rule_recursion_converted)
@@ -403,6 +404,48 @@ def rule_commit_last(ctx):
               "the store can be written before the object was parsed/validated (a failed addition leaves the store changed)",
               file=ad.module.relpath, line=ad.node.lineno, function=ad.qualname, expected="parse(...) then store._data[...] = ...",
               found=[n.lineno for n in writes])
+
+
+def rule_failed_write_leaves_no_file(ctx, rule_id="C17.commit-last"):
+    """The file-system sink creates the version file and THEN serialises into it.  When serialisation or encoding fails (a lone
+    surrogate, a value the encoder refuses) the add raises -- but the file exists, empty or half written: every later read of
+    that type directory fails and the corrected object cannot be added (refused as an overwrite).  Pairing rule: every text /
+    binary open for writing in the sink sits in a try whose handler removes that file and re-raises."""
+    run = ctx.run
+    prog = ctx.prog
+    n = 0
+    for fi in sorted(prog.functions.values(), key=lambda f: f.id):
+        if fi.module.name != "stix2.datastore.filesystem":
+            continue
+        for w in [x for x in body_walk(fi.node) if isinstance(x, ast.With)]:
+            opens = [it.context_expr for it in w.items if isinstance(it.context_expr, ast.Call) and norm(it.context_expr.func) in ("io.open", "open")]
+            for oc in opens:
+                mode = oc.args[1] if len(oc.args) > 1 else next((k.value for k in oc.keywords if k.arg == "mode"), None)
+                if not (isinstance(mode, ast.Constant) and any(ch in str(mode.value) for ch in "wax")):
+                    continue
+                n += 1
+                path_txt = norm(oc.args[0]) if oc.args else None
+                ok = False
+                p_ = getattr(w, "parent", None)
+                child = w
+                while p_ is not None and p_ is not fi.node:
+                    if isinstance(p_, ast.Try) and child in p_.body:
+                        for h in p_.handlers:
+                            broad = h.type is None or norm(h.type) in ("Exception", "BaseException")
+                            removes = any(isinstance(c, ast.Call) and norm(c.func) in ("os.remove", "os.unlink") and c.args
+                                          and norm(c.args[0]) == path_txt for c in ast.walk(h))
+                            reraises = any(isinstance(x, ast.Raise) and x.exc is None for x in ast.walk(h))
+                            if broad and removes and reraises:
+                                ok = True
+                    child, p_ = p_, getattr(p_, "parent", None)
+                run.check(ok, rule_id, key(fi.module.relpath, fi.qualname, "failed-write-leaves-no-file"),
+                          "the file is created before what is written into it is known to be writable, and nothing removes it when "
+                          "the write fails: a failed add() leaves an empty / partial file behind that breaks every later read of the "
+                          "directory and blocks the corrected object (overwrite refusal)", file=fi.module.relpath, line=w.lineno,
+                          function=fi.qualname, expected="try: with open(path, 'w') ...  except Exception: os.remove(path); raise",
+                          found=short(oc, 80))
+    if n < 1:
+        raise AnalysisError("file-system sink: no open-for-writing found (anchor lost)")
 
 
 def rule_registry_class_attr(ctx):
